@@ -5,7 +5,7 @@ import os
 
 from . import core
 
-QUICK = {"MaxSeg": "3", "Pool": '"small"', "ShortLen": "3"}
+QUICK = {"MaxSeg": "3", "Pool": '"mid"', "ShortLen": "3"}
 THOROUGH = {"MaxSeg": "3", "Pool": '"full"', "ShortLen": "3"}
 
 
